@@ -118,7 +118,10 @@ def tokens_equal(a, b, exact):
         fx, fy = num(x), num(y)
         if fx is None or fy is None:
             return False
-        if abs(fx - fy) <= 1e-4 * max(abs(fx), abs(fy)) + 2e-5:
+        # lengths (nm, written with five decimals) may differ in the last printed digit only; larger numbers (force constants,
+        # angles in degrees) by 1e-4 relative
+        big = max(abs(fx), abs(fy))
+        if abs(fx - fy) <= (2.5e-5 if big < 5 else 1e-4 * big + 2e-5):
             continue
         if abs(abs(fx) - 180) < 0.6 and abs(abs(fy) - 180) < 0.6:
             continue
@@ -458,6 +461,12 @@ def cases(tier, seed):
             grp.update({'pdb': 'verif:vf/gen/free_alanine.pdb', 'options': rnd.choice([['-ff', 'martini3001'], ['-ff', 'martini22']]),
                         'presentations': [('hashseed', {}), ('permute', {'pstyle': 'reverse'}), ('rigid', {}), ('hashseed', {'n': 2})]})
             grp['hashseed'] = rnd.choice([1, 2, 3, 4, 5])
+        elif (tier == 'quick' and g == 6) or (tier != 'quick' and g % 24 == 11):
+            # more than 500 backbone particles in ONE elastic network, moved far from the origin (two runs of a
+            # 522-residue assembly)
+            grp.update({'pdb': T0 + 'mini-protein1_betasheet/aa.pdb', 'copies': 18,
+                        'options': ['-ff', 'martini3001', '-elastic', '-eunit', 'all'],
+                        'presentations': [('translate-file', {'far': True}), ('hashseed', {})]})
         elif tier == 'quick' and g == 3:
             # a deposited structure with CONECT records between chains (disulfide bridges of insulin), its atom records reversed
             grp.update({'pdb': T1 + '3i40/3i40.pdb', 'options': ['-ff', 'martini3001', '-elastic', '-p', 'backbone'],
@@ -606,6 +615,20 @@ def run_case(params):
     if params.get('split_first_residue'):
         split_first_residue(pdb, os.path.join(base, 'split.pdb'))
         pdb = os.path.join(base, 'split.pdb')
+    if params.get('copies'):
+        # an assembly: n copies of the structure as chains A, B, C ... on a grid (one elastic network over all of them)
+        src_lines = [l for l in open(pdb) if l.startswith('ATOM')]
+        with open(os.path.join(base, 'assembly.pdb'), 'w') as g:
+            serial = 0
+            for c in range(params['copies']):
+                dx, dy = 40.0 * (c % 5), 40.0 * (c // 5)
+                for l in src_lines:
+                    serial += 1
+                    g.write('%s%5d%s%s%s%8.3f%8.3f%s' % (l[:6], serial % 100000, l[11:21], 'ABCDEFGHIJKLMNOPQRSTUVWXYZ'[c], l[22:30],
+                                                        float(l[30:38]) + dx, float(l[38:46]) + dy, l[46:]))
+                g.write('TER\n')
+            g.write('END\n')
+        pdb = os.path.join(base, 'assembly.pdb')
     if params.get('restart_serials'):
         restart_serials(pdb, os.path.join(base, 'restarted.pdb'))
         pdb = os.path.join(base, 'restarted.pdb')
@@ -663,7 +686,7 @@ def run_case(params):
             if kind == 'translate-file':
                 # the input FILE is translated (by whole thousandths of an Angstrom, so no coordinate is rounded): x moves below
                 # -100 A and y above 1000 A, where the coordinates fill all eight columns of their fields
-                shift = (-150.0, 1000.0, 12.0)
+                shift = (-150.0, 1000.0, 12.0) if not extra.get('far') else (5000.0, 4000.0, 6000.0)
                 os.makedirs(d, exist_ok=True)
                 moved_pdb = os.path.join(d, 'moved.pdb')
                 with open(pdb) as f, open(moved_pdb, 'w') as g:
